@@ -8,7 +8,7 @@
    revisions c0; the producer sequence is whatever slots the LSeqTake labels carry (only slot committed+1 is
    taken, failed slots produce no event). *)
 From KB Require Import Base.Cases Model.WatchSys Model.C05Cases
-  Proofs.WatchRing Proofs.WatchSys Proofs.WatchCatchup Proofs.C05Cases.
+  Proofs.WatchRing Proofs.WatchSys Proofs.WatchCatchup Proofs.WatchNoPanic Proofs.WatchFrame Proofs.WatchReasons Proofs.C05Cases.
 Local Open Scope N_scope.
 
 (* ---------- ring ---------- *)
@@ -30,6 +30,14 @@ Theorem C05_prefix : forall pa l c0 ls i w, 0 < l ->
   is_prefix (concat (w_got w)) (ideal (w_S w) (w_P w) (w_base w) (s_cached (run pa ls (init l c0)))).
 Proof. exact prefix_full. Qed.
 Print Assumptions C05_prefix.
+
+(* the same on the etcd wire format, which keeps one PUT for create and update (wire_ev): what a watch id of an etcd
+   stream carries is a prefix of the ideal stream read through the same projection — one model watcher per watch id *)
+Theorem C05_prefix_wire : forall pa l c0 ls i w, 0 < l ->
+  nth_error (s_ws (run pa ls (init l c0))) i = Some w -> accepted w = true ->
+  is_prefix (map wire_ev (concat (w_got w))) (map wire_ev (ideal (w_S w) (w_P w) (w_base w) (s_cached (run pa ls (init l c0))))).
+Proof. exact prefix_wire. Qed.
+Print Assumptions C05_prefix_wire.
 
 (* what makes it true: a subscriber whose buffer was found full is closed and unregistered within the same hub
    step, so it is never offered another batch (fix of C05-F1: no asynchronous `go DeleteWatcher`) *)
@@ -54,13 +62,33 @@ Theorem C05_complete : forall pa l c0 ls i w, 0 < l ->
 Proof. exact complete_settled. Qed.
 Print Assumptions C05_complete.
 
-(* a watch with S > 0 is accepted only if every event with revision >= S that was fanned out before its
-   subscription was in the cache window FindEvents read (all others are offered to the subscriber) *)
-Theorem C05_refusal_sound : forall pa l c0 ls i w, 0 < l ->
+(* acceptance is sound: a watch with S > 0 is accepted only if every event with revision >= S that was fanned out
+   before its subscription was in the cache window FindEvents read (all others are offered to the subscriber) *)
+Theorem C05_accept_sound : forall pa l c0 ls i w, 0 < l ->
   nth_error (s_ws (run pa ls (init l c0))) i = Some w -> accepted w = true -> w_S w <> 0 ->
   forall e, In e (firstn (w_base w) (s_cached (run pa ls (init l c0)))) -> w_S w <= e_rev e -> In e (w_snap w).
 Proof. exact refusal_sound. Qed.
-Print Assumptions C05_refusal_sound.
+Print Assumptions C05_accept_sound.
+
+(* refusal has a reason (a Watch that always refuses does not satisfy this): a refused watch has S <> 0 and, for the
+   cache as FindEvents saw it (a prefix of the events cached so far), either the cache was empty and S was not above
+   the committed revision, or S was not above the newest cached revision but below the oldest one — the history it
+   asks for had been evicted, or predates the cache *)
+Theorem C05_refused_for_a_reason : forall pa l c0 ls i w, 0 < l ->
+  let s := run pa ls (init l c0) in
+  nth_error (s_ws s) i = Some w -> w_phase w = PhRefused ->
+  refusal_reason l (s_cached s) (s_committed s) (w_S w).
+Proof. exact refused_for_a_reason. Qed.
+Print Assumptions C05_refused_for_a_reason.
+
+(* a drop has a reason (a hub that always drops does not satisfy this): a dropped subscriber was, at some hub step of
+   the run, registered with p_hub batches in its buffer *)
+Theorem C05_dropped_for_a_reason : forall pa l c0 ls i w,
+  nth_error (s_ws (run pa ls (init l c0))) i = Some w -> w_dropped w = true ->
+  exists ls1 o ls2 w0, ls = ls1 ++ LHubItem o :: ls2 /\
+    nth_error (s_ws (run pa ls1 (init l c0))) i = Some w0 /\ w_reg w0 = true /\ p_hub pa <= chan_len (w_sub w0).
+Proof. exact dropped_for_a_reason. Qed.
+Print Assumptions C05_dropped_for_a_reason.
 
 (* the ordering premise of the producer: what the hub has fanned out, what waits in watchChan and the batch
    under construction are, in this order, exactly the cached events, which are strictly increasing *)
@@ -87,6 +115,26 @@ Theorem C05_watch_never_hangs : forall pa l sigma S P c, fits_params pa ->
 Proof. exact decide_never_hangs. Qed.
 Print Assumptions C05_watch_never_hangs.
 
+(* none of the explicit failure outcomes of the model occurs on a reachable state, for every cache size >= 1 and every
+   parameter choice for which catchUpEvents fits (the constants of the code do): no Go panic (Ring.Add on a zero-size
+   ring, nil event or out-of-range slice in FindEvents, send on a closed subscriber channel in Stream, division by
+   zero in catchUpEvents) and no Watch call blocked for ever in catchUpEvents *)
+Theorem C05_no_panic_no_hang : forall pa l c0 ls, 0 < l -> fits_params pa ->
+  let s := run pa ls (init l c0) in
+  s_panic s = false /\ forall i w, nth_error (s_ws s) i = Some w -> w_phase w <> PhPanic /\ w_phase w <> PhHung.
+Proof. exact no_panic_no_hang. Qed.
+Print Assumptions C05_no_panic_no_hang.
+
+(* watchers do not influence each other — the model-level content of "several watches multiplexed on one stream, or
+   several clients, each get exactly their own events": the state of watcher i (what it holds, what its client has
+   received) after a run equals its state after the same run with every step of another watcher j removed (j's cache
+   read and spawn, its processEvents and client steps, its cancellation and ctx deleter) *)
+Theorem C05_siblings_independent : forall pa l c0 ls i j, 0 < l -> fits_params pa -> i <> j ->
+  nth_error (s_ws (run pa ls (init l c0))) i
+  = nth_error (s_ws (run pa (filter (fun lb => negb (targets j lb)) ls) (init l c0))) i.
+Proof. exact sibling_stream_independent. Qed.
+Print Assumptions C05_siblings_independent.
+
 (* the executable oracle accepts every case on which model and implementation agree — ring cases, hub-alone
    scripts and backend runs alike: for every parameter set, cache size l >= 1, initial revision and script
    (labels interleaved with observations), if every observation agrees with the model's state at that point
@@ -96,6 +144,32 @@ Print Assumptions C05_watch_never_hangs.
 Theorem C05_oracle_sound : forall c, c05_valid c -> c05_check c = true -> c05_oracle c = None.
 Proof. exact c05_oracle_sound. Qed.
 Print Assumptions C05_oracle_sound.
+
+(* validity is decidable and evaluated on every case: c05_check includes c05_validb, so a case outside the theorem's
+   hypothesis is a disagreement; here: the evaluated predicate implies the hypothesis *)
+Theorem C05_validb_valid : forall c, c05_validb c = true -> c05_valid c.
+Proof. exact c05_validb_valid. Qed.
+Print Assumptions C05_validb_valid.
+
+(* so every case that passes the check is covered: no separate hypothesis is left *)
+Theorem C05_check_sound : forall c, c05_check c = true -> c05_oracle c = None.
+Proof. exact c05_check_sound. Qed.
+Print Assumptions C05_check_sound.
+
+(* the ring under a producer of consecutive revisions — the statement the concurrent stress of the driver compares
+   the implementation with (cases KSnap): an atomic FindEvents(S) whose S lies inside the window returns exactly the
+   revisions S, S+1, ..., newest; outside it reports low / high; for all cache sizes and all S *)
+Theorem C05_ring_consecutive : forall l a sigma S r,
+  0 < l -> consecutive a sigma -> ring_of l sigma = Some r ->
+  match obs_of_find (find_events r S) with
+  | ROEvents nw od evs => snap_ok S od nw evs = true
+  | ROLow nw od => S < od
+  | ROHigh nw od => nw < S
+  | ROEmpty => sigma = []
+  | ROPanic => False
+  end.
+Proof. exact ring_consecutive. Qed.
+Print Assumptions C05_ring_consecutive.
 
 Theorem C05_oracle_sound_ring : forall l revs S obs,
   c05_valid (KRing l revs S obs) -> c05_check (KRing l revs S obs) = true -> c05_oracle (KRing l revs S obs) = None.
@@ -110,8 +184,27 @@ Example C05_ring_wrapped :
   = Some (ROEvents 110 107 [Some 108; Some 110]).
 Proof. vm_compute. reflexivity. Qed.
 
+(* the ring case check itself (hypotheses of C05_oracle_sound_ring on a concrete KRing case): valid, check passes,
+   oracle accepts; a result with the first event missing is rejected by both *)
+Example C05_ring_case_inhabited :
+  let good := KRing 3 [101; 102; 104; 105; 107; 108; 110] 108 (ROEvents 110 107 [Some 108; Some 110]) in
+  let bad := KRing 3 [101; 102; 104; 105; 107; 108; 110] 108 (ROEvents 110 107 [Some 110]) in
+  c05_validb good = true /\ c05_check good = true /\ c05_oracle good = None /\ c05_check bad = false /\ c05_oracle bad = Some 0.
+Proof. vm_compute. repeat split. Qed.
+
+(* a refused watch: cache of 2 holding revisions 2 and 3, Watch from S = 1 -> refused, with the reason of
+   C05_refused_for_a_reason (S below the oldest cached revision 2) *)
+Example C05_refused_inhabited :
+  let s := run real_params (flat_map (fun r => c05_prod r ++ [LHubItem []]) [1; 2; 3] ++ [LWatchSub 1 []; LWatchRead 0; LWatchSpawn 0]) (init 2 0) in
+  match nth_error (s_ws s) 0 with
+  | Some w => w_phase w = PhRefused /\ w_S w = 1 /\
+              e_rev (hd ev0 (lastn 2 (firstn 3 (s_cached s)))) = 2 /\ e_rev (last (firstn 3 (s_cached s)) ev0) = 3
+  | None => False
+  end.
+Proof. vm_compute. repeat split. Qed.
+
 (* a settled, accepted watcher with replay: S = 2 inside a window of 2, prefix "/a", three events, one catch-up
-   batch and one live batch; the hypotheses of C05_complete / C05_refusal_sound / C05_prefix hold *)
+   batch and one live batch; the hypotheses of C05_complete / C05_accept_sound / C05_prefix hold *)
 Definition c05_ok_run : list label :=
   c05_prod 1 ++ [LHubItem []] ++ c05_prod 2 ++ [LHubItem []; LWatchSub 2 [47]; LWatchRead 0] ++
   c05_prod 3 ++ [LWatchSpawn 0; LHubItem []; LProc 0; LProc 0; LConsume 0; LConsume 0].
@@ -130,13 +223,55 @@ Proof. vm_compute. repeat split; discriminate. Qed.
 (* C05_oracle_sound is not vacuous on pipeline cases: a script with a replaying watcher and two observations, the
    second one at an open, settled stream (where the oracle demands completeness), passes the check *)
 Example C05_oracle_sound_inhabited :
-  let obs g q := RObs (mkObs 0%nat (Some 1) None (Some g) (Some false) q) in
+  let obs g q := RObs (mkObs 0%nat 2 [47] (Some 1) None (Some g) (Some false) q false) in
   let c := KRun real_params 2 0
              (map RL (c05_prod 1 ++ [LHubItem []] ++ c05_prod 2 ++ [LHubItem []; LWatchSub 2 [47]; LWatchRead 0]) ++
               map RL (c05_prod 3 ++ [LWatchSpawn 0; LConsume 0]) ++ [obs [GE (to_event (c05_we 2))] false] ++
               map RL [LHubItem []; LProc 0; LProc 0; LConsume 0] ++
               [obs [GE (to_event (c05_we 2)); GE (to_event (c05_we 3))] true]) in
   c05_valid c /\ c05_check c = true /\ c05_oracle c = None.
+Proof. vm_compute. repeat split. Qed.
+
+(* a wrapped ring of consecutive revisions 101..110 in 4 slots: FindEvents(108) is the snapshot 108, 109, 110 that
+   C05_ring_consecutive predicts; a result as the unlock-before-copy mutant produced is rejected by the case check *)
+Example C05_ring_consecutive_inhabited :
+  let sigma := map ring_ev (nseq 101 10) in
+  consecutive 101 sigma /\
+  option_map (fun r => obs_of_find (find_events r 108)) (ring_of 4 sigma) = Some (ROEvents 110 107 [Some 108; Some 109; Some 110]) /\
+  c05_check (KSnap 108 107 110 [Some 108; Some 109; Some 110]) = true /\
+  c05_oracle (KSnap 108 107 110 [Some 111; Some 109; Some 110]) = Some 0.
+Proof. vm_compute. repeat split. Qed.
+
+(* an etcd-carried watch (o_wire): the CREATE of revision 2 arrives as a PUT on the wire and is accepted modulo the
+   kind; without the flag the same observation is a disagreement *)
+Example C05_wire_projection_inhabited :
+  let put2 := mkEv VPut 2 [47; 97] [2] 2 in
+  let run wire := KRun real_params 2 0
+     (map RL (c05_prod 1 ++ [LHubItem []; LWatchSub 0 [47]; LWatchSpawn 0] ++ c05_prod 2 ++ [LHubItem []; LProc 0; LProc 0; LConsume 0]) ++
+      [RObs (mkObs 0%nat 0 [47] (Some 1) None (Some [GE put2]) (Some false) true wire)]) in
+  c05_check (run true) = true /\ c05_oracle (run true) = None /\ c05_check (run false) = false.
+Proof. vm_compute. repeat split. Qed.
+
+(* both hypotheses of C05_no_panic_no_hang are needed: a zero-size cache panics in Ring.Add, and with result channel 4 /
+   batch 1 a replay of five events blocks Watch for ever *)
+Example C05_no_panic_hypotheses_needed :
+  s_panic (run real_params (c05_prod 1) (init 0 0)) = true /\
+  match nth_error (s_ws (run (mkParams 10 4 1 10)
+          (flat_map (fun r => c05_prod r ++ [LHubItem []]) [1; 2; 3; 4; 5] ++ [LWatchSub 1 []; LWatchRead 0; LWatchSpawn 0]) (init 8 0))) 0 with
+  | Some w => w_phase w = PhHung
+  | None => False
+  end.
+Proof. vm_compute. split; reflexivity. Qed.
+
+(* two watchers on the same events; with all steps of watcher 1 removed from the run watcher 0 is the same, and has
+   received both events *)
+Example C05_siblings_independent_inhabited :
+  let ls := [LWatchSub 0 [47]; LWatchSub 1 []; LWatchSpawn 0] ++ c05_prod 1 ++ [LHubItem []; LWatchRead 1; LWatchSpawn 1; LProc 1] ++
+            c05_prod 2 ++ [LHubItem []; LProc 0; LProc 0; LConsume 0; LProc 1; LCancel 1; LCtxDelete 1; LProc 0; LProc 0; LConsume 0] in
+  length (filter (fun lb => negb (targets 1 lb)) ls) = 17%nat /\ length ls = 23%nat /\
+  option_map (fun w => map e_rev (concat (w_got w))) (nth_error (s_ws (run real_params ls (init 2 0))) 0) = Some [1; 2] /\
+  nth_error (s_ws (run real_params ls (init 2 0))) 0
+  = nth_error (s_ws (run real_params (filter (fun lb => negb (targets 1 lb)) ls) (init 2 0))) 0.
 Proof. vm_compute. repeat split. Qed.
 
 (* the overflow run on the repaired hub (capacities 1/1/1): batch 2 finds the buffer full, the subscriber is
